@@ -5,7 +5,7 @@ import json
 import stages
 from stages import (apalache_inductive, calls, events_trace, generated_streams, guard, harness_calls, mc, product,
                     steps, streams, tla_set)
-from vlib import log
+from vlib import log, seed
 
 ALLK = ["std", "lf", "ll"]
 
@@ -591,6 +591,34 @@ def selftest():
                                stderr=subprocess.STDOUT, text=True, timeout=3000)
             results["witness %s!%s is reachable" % (mod, nm)] = ("Invariant %s is violated" % neg) in p.stdout
             shutil.rmtree(wdir, ignore_errors=True)
+
+    # 8. Input state machine: a done configuration is reachable (witness), and a recorded setter
+    #    history with one corrupted field (the span end after the first step) is rejected
+    cfg = stages.write_cfg("st_input_wit", constants={"MaxLen": 2, "MaxArg": 4}, invariants=["NeverDone"])
+    p = subprocess.run(["java", "-cp", "/opt/veriftools/tla/tla2tools.jar:/opt/veriftools/tla/CommunityModules-deps.jar",
+                        "tlc2.TLC", "-workers", "4", "-metadir", os.path.join(wd, "inmd"), "-cleanup", "-noGenerateSpecTE",
+                        "-config", cfg, "ACInput.tla"], cwd=SPEC, stdout=subprocess.PIPE, stderr=subprocess.STDOUT, text=True)
+    results["witness ACInput: a done configuration is reachable"] = "Invariant NeverDone is violated" in p.stdout
+    pre = os.path.join(wd, "input")
+    run_harness(["inputops", "--out", pre, "--shards", 1, "--seed", seed()])
+    lines = open(pre + ".0.ndjson").read().splitlines()[:200]
+    for tag, corrupt in (("good", False), ("bad", True)):
+        f = os.path.join(wd, "input_%s.ndjson" % tag)
+        with open(f, "w") as fh:
+            for i, ln in enumerate(lines):
+                ev = json.loads(ln)
+                if corrupt and i == 7:
+                    ev["ops"][0][5] += 1
+                fh.write(json.dumps(ev) + "\n")
+        p = subprocess.run(["java", "-Xss512m", "-cp", "/opt/veriftools/tla/tla2tools.jar:/opt/veriftools/tla/CommunityModules-deps.jar",
+                            "tlc2.TLC", "-workers", "1", "-metadir", os.path.join(wd, "inmd2"), "-cleanup", "-noGenerateSpecTE",
+                            "-config", "TraceInput.cfg", "TraceInput.tla"], cwd=SPEC, env=dict(os.environ, TRACE=f),
+                           stdout=subprocess.PIPE, stderr=subprocess.STDOUT, text=True)
+        nrej = p.stdout.count("REJECT ")
+        if corrupt:
+            results["a setter history with a corrupted span end is rejected (line 8)"] = nrej >= 1 and '\\"line\\":8' in p.stdout
+        else:
+            results["the uncorrupted setter histories are accepted"] = nrej == 0 and "No error has been found" in p.stdout
 
     ok = all(results.values())
     for k, v in results.items():
